@@ -12,6 +12,9 @@ namespace Lower
 
 def ivar (k : Nat) : SExpr := .idx k
 
+/-- the binding name `_in<k>` -/
+def inName (k : Nat) : String := "_in" ++ toString k
+
 /-- `x - c` as pymbolic builds it for an integer constant `c` -/
 def subConst (x : SExpr) (c : Int) : SExpr := .add x (.int (-c))
 
@@ -29,8 +32,8 @@ def perm (p : List Nat) : SExpr :=
 def stackFrom (axis nd : Nat) (subscript : List SExpr) : Nat → Nat → SExpr
   | _, 0 => .sub "_in0" subscript   -- unreachable for n ≥ 1 (see `stack`)
   | i, (k + 1) =>
-    if k = 0 then .sub s!"_in{i}" subscript
-    else .ite (.cmp .eq (ivar axis) (.int i)) (.sub s!"_in{i}" subscript)
+    if k = 0 then .sub (inName i) subscript
+    else .ite (.cmp .eq (ivar axis) (.int i)) (.sub (inName i) subscript)
               (stackFrom axis nd subscript (i + 1) k)
 
 def stack (narrays axis nd : Nat) : SExpr :=
@@ -41,11 +44,11 @@ def stack (narrays axis nd : Nat) : SExpr :=
 def concatFrom (axis nd : Nat) : Nat → Nat → List Nat → SExpr
   | _, _, [] => .int 0
   | i, lb, [_] =>
-    .sub s!"_in{i}" ((List.range nd).map fun d =>
+    .sub (inName i) ((List.range nd).map fun d =>
       if d = axis then subConst (ivar d) lb else ivar d)
   | i, lb, n :: rest =>
     .ite (.cmp .lt (ivar axis) (.int (lb + n : Nat)))
-      (.sub s!"_in{i}" ((List.range nd).map fun d =>
+      (.sub (inName i) ((List.range nd).map fun d =>
         if d = axis then subConst (ivar d) lb else ivar d))
       (concatFrom axis nd (i + 1) (lb + n) rest)
 
@@ -69,6 +72,20 @@ def basicIdxFrom : Nat → List NIdx → Shape → List SExpr
 
 def basic (ix : List NIdx) (shape : Shape) : SExpr :=
   .sub "in" (basicIdxFrom 0 ix shape)
+
+/-- `_index_into`: slices are normalised against their axis length, ints kept -/
+def normIdx : Shape → List Spec.BIdx → List NIdx
+  | _ :: ns, .int k :: ix => .int k :: normIdx ns ix
+  | n :: ns, .slice st sp step :: ix => .slice (ptNormSlice st sp step n) :: normIdx ns ix
+  | _, _ => []
+
+/-- what `_index_into` accepts: one component per axis, ints within
+    `[-n, n)`, slice steps non-zero -/
+def validIx : Shape → List Spec.BIdx → Prop
+  | [], [] => True
+  | n :: ns, .int k :: ix => (-(n : Int) ≤ k ∧ k < n) ∧ validIx ns ix
+  | _ :: ns, .slice _ _ step :: ix => step ≠ 0 ∧ validIx ns ix
+  | _, _ => False
 
 /-! ### reshape -/
 
